@@ -447,12 +447,16 @@ func checkParse(c parseCase) (h.Info, error) {
 		info.NT = true
 	}
 	m := bip39.ParseMnemonic(text)
+	if len(text) > 20000 {
+		info.Class = "parse/huge-input"
+		info.NT = true
+	}
 	if len(m) != len(c.Words) {
-		return info, fmt.Errorf("ParseMnemonic(%+q) = %+q, want %+q", text, []string(m), c.Words)
+		return info, fmt.Errorf("ParseMnemonic(%s) gives %d words, want %d: %s", abbrev(text), len(m), len(c.Words), abbrev(fmt.Sprintf("%+q", []string(m))))
 	}
 	for i := range m {
 		if m[i] != c.Words[i] {
-			return info, fmt.Errorf("ParseMnemonic(%+q) word %d = %+q, want %+q", text, i, m[i], c.Words[i])
+			return info, fmt.Errorf("ParseMnemonic(%s) word %d = %s, want %s", abbrev(text), i, abbrev(m[i]), abbrev(c.Words[i]))
 		}
 	}
 	printed := m.String()
@@ -493,10 +497,41 @@ func fullWidth(w string) string {
 	return b.String()
 }
 
+// abbrev shortens huge strings in messages.
+func abbrev(s string) string {
+	if len(s) <= 300 {
+		return fmt.Sprintf("%+q", s)
+	}
+	return fmt.Sprintf("%+q...(%d bytes)...%+q", s[:120], len(s), s[len(s)-60:])
+}
+
 func genParse(t *rapid.T) parseCase {
 	lang := h.OneOf(t, "lang", langs...)
 	l := list(lang)
 	n := rapid.IntRange(0, 26).Draw(t, "n")
+	huge, hugeAt := "", -1
+	switch h.Pick(t, "big", 1200, 1, 1) {
+	case 1: // one token longer than any internal line / token buffer (64 KiB and more)
+		huge = strings.Repeat(h.OneOf(t, "hugeunit", "a", "z", "\u3042"), h.OneOf(t, "hugelen", 65535, 65536, 65537, 70000, 200000))
+		if n == 0 {
+			n = 3
+		}
+		hugeAt = rapid.IntRange(0, n-1).Draw(t, "hugeat")
+	case 2: // very many words: drawn as one seed, plain separators
+		n = h.OneOf(t, "manywords", 4096, 10000, 70000)
+		seed := rapid.Uint64().Draw(t, "manyseed")
+		words := make([]string, n)
+		var text strings.Builder
+		for i := range words {
+			seed = seed*6364136223846793005 + 1442695040888963407
+			words[i] = l.Words[(seed>>33)%2048]
+			if i > 0 {
+				text.WriteString([]string{" ", "\n", "\u3000", "  "}[(seed>>20)%4])
+			}
+			text.WriteString(words[i])
+		}
+		return parseCase{Words: words, Text: h.S(text.String())}
+	}
 	words := make([]string, n)
 	var text strings.Builder
 	sep := func(min int) {
@@ -514,6 +549,11 @@ func genParse(t *rapid.T) parseCase {
 		words[i] = l.Words[rapid.IntRange(0, 2047).Draw(t, "w")]
 		if i > 0 {
 			sep(1)
+		}
+		if i == hugeAt {
+			words[i] = huge
+			text.WriteString(huge)
+			continue
 		}
 		switch h.Pick(t, "form", 5, 3, 2) {
 		case 0:
